@@ -188,6 +188,8 @@ def _hyp_shard(args):
     return ("harness", "hypothesis health check: %s" % e)
   except hypothesis.errors.Unsatisfiable as e:
     return ("harness", "hypothesis unsatisfiable: %s" % e)
+  except Exception as e:  # pylint: disable=broad-except
+    return ("harness", "generator or runner raised %s: %s\n%s" % (type(e).__name__, str(e)[:300], traceback.format_exc()[-1500:]))
   return ("ok", acc)
 
 
@@ -374,8 +376,9 @@ def write_evidence(ctx, wall, violations):
     "coverage": cov, "assumptions": list(getattr(mod, "ASSUMPTIONS", [])), "wall_s": round(wall, 2),
     "violations": violations,
   }
-  os.makedirs(os.path.join(HOME, "evidence"), exist_ok=True)
-  with open(os.path.join(HOME, "evidence", ctx.pid + ".json"), "w") as f:
+  evdir = os.environ.get("VT_EVIDENCE_DIR") or os.path.join(HOME, "evidence")
+  os.makedirs(evdir, exist_ok=True)
+  with open(os.path.join(evdir, ctx.pid + ".json"), "w") as f:
     json.dump(ev, f, indent=1, sort_keys=True)
     f.write("\n")
 
